@@ -10,6 +10,8 @@ def run(ctx):
     res3 = ctx.cvc(["II"], ["F-STATE"], functions=["BTree_getstate", "bucket_getstate"])
     from lib import replay
     replay.replay_fstate(ctx, res3)
+    res4 = ctx.cvc(["II", "OO"], ["M-NULL"])
+    replay.replay_mnull(ctx, res4)
     ctx.standin("alloc_rt", families=("OO", "II") if ctx.tier == "quick" else ("OO", "II", "fs", "LF", "QQ"))
     return "proof", (
         "M-ALLOC on every function of the translation units (%s) that allocates, reallocates or frees directly, "
@@ -22,6 +24,7 @@ def run(ctx):
         "before the hand-over leaves the root as it was and the child released on that path owns nothing of the root's. "
         "F-STATE (see C06), run here for its clause `item-not-NULL`: a number object that could not be allocated is never stored into "
         "a state tuple (found and fixed in BTree_getstate: 5b9672e; replayed natively with _testcapi.set_nomemory). "
-        "Soundness of the container after the failure, contents previous-or-completed and the follow-up "
+        "M-NULL: results of fallible CPython constructors (memory the guarded hook does not reach) are checked before use "
+        "in every function. Soundness of the container after the failure, contents previous-or-completed and the follow-up "
         "workload are the bounded fault enumeration alloc_rt through the guarded hook (every n, every scenario)."
         % ", ".join(fams))
